@@ -177,8 +177,10 @@ def cell_geometry(machine, val, X, cad, w):
             continue
         r = rel((cad & 0xffffffff, w // 8), (a, cell.size // 8))
         if r != 'disjoint':
-            rels.append('%s/c%d' % (r, cell.size))
-    return 'geometry=r%d:%s' % (w, '+'.join(sorted(rels)) or 'untouched')
+            rels.append(r)
+    # the SET of overlap relations (no multiplicities, no cell sizes): longer histories build ever more cell layouts, the
+    # reconstruction cases they exercise are these; exact layouts of <= 2 (thorough 3) stores are the storeload family's business
+    return 'geometry=r%d:%s' % (w, '+'.join(sorted(set(rels))) or 'untouched')
 
 
 def shape(line):
@@ -194,12 +196,10 @@ def canon_state(machine):
     return core.h64('\n'.join(machine.dump_id() + machine.dump_mem()))
 
 
-def bfs(ctx, part, tier, seed, s, ns):
+def bfs(ctx, part, alpha, depth, seed, s, ns):
     """level-synchronous BFS; the first level is partitioned over shards, each shard explores its sub-tree"""
     ia32, eh = ctx['ia32'], ctx['eh']
     enc = encoded()
-    alpha = QUICK_ALPHABET if tier == 'quick' else list(range(len(ALPHABET)))
-    depth = 3 if tier == 'quick' else 4
     seen = set()
     frontier = [()]
     for d in range(1, depth + 1):
@@ -400,7 +400,11 @@ def shard(s, ns, tier, seed):
     ctx = make_ctx()
     part = core.Part()
     with core.quiet_stdout():
-        bfs(ctx, part, tier, seed, s, ns)
+        if tier == 'quick':
+            bfs(ctx, part, QUICK_ALPHABET, 3, seed, s, ns)
+        else:
+            bfs(ctx, part, list(range(len(ALPHABET))), 3, seed, s, ns)
+            bfs(ctx, part, QUICK_ALPHABET, 4, seed, s, ns)
         for i, (base, stores, load) in enumerate(storeload_space(tier)):
             if (i // 64) % ns != s:
                 continue
@@ -441,7 +445,7 @@ def run(tier, seed):
     core.import_x86()
     encoded()
     part = core.run_sharded(shard, (tier, seed), nshards=len(QUICK_ALPHABET) if tier == 'quick' else len(ALPHABET))
-    rule = ('(1) BFS over instruction sequences: alphabet of %d instructions (quick: %d), depth %d, real emul_lines on a fresh x86_machine per history, '
+    rule = ('(1) BFS over instruction sequences: alphabet of %d instructions (quick alphabet: %d), depth %d, real emul_lines on a fresh x86_machine per history, '
             'canonical state = digest of dump_id()+dump_mem(), already-seen states are not expanded, failing states are not expanded; invariant per '
             'state: for 2 valuations of the initial symbols (bases 1 MiB apart) every general register, status flag and every read-back of 8/16/32 '
             'bits over the touched windows (esp-8..+11, esi-3..+11, edi-4..+7, 0xffd..0x1007) equals the concrete byte machine that runs the same lifted IR '
@@ -449,7 +453,7 @@ def run(tier, seed):
             'symbolic base through eval_instr/eval_expr. (3) rep stosb/movsb/stosd/repe cmpsb/repne scasb with ecx 0..3, df 0/1 and concrete memory '
             'making the termination test fire at each position, against the architectural loop. states/transitions/traces are counted on the real code; '
             'every explored trace is replayed on the implementation (that replay is the check)' % (
-                len(ALPHABET), len(QUICK_ALPHABET), 3 if tier == 'quick' else 4, '1..2' if tier == 'quick' else '1..3'))
+                len(ALPHABET), len(QUICK_ALPHABET), 3, '1..2' if tier == 'quick' else '1..3') + (' [thorough: depth 3 over the full alphabet and depth 4 over the quick alphabet]' if tier != 'quick' else ''))
     return core.finish('C07', tier, seed, t0, part, rule, level='model_checking', exhaustive=True,
                        assumptions=['the concrete machine interprets the SAME lifted IR (C04 is about the lifter); irsem semantics',
                                     'different symbolic bases are at least 1 MiB apart (the machine\'s no-alias assumption is granted)'])
